@@ -256,6 +256,11 @@ func workerRun(t *testing.T) {
 		b, _ := json.Marshal(rec)
 		bw.Write(b)
 		bw.WriteByte('\n')
+		if os.Getenv("VERIF_VERBOSE") != "" && r != nil && r.H != nil {
+			for _, l := range r.H.Canon() {
+				fmt.Fprintln(bw, "LOG "+l)
+			}
+		}
 		bw.Flush()
 		if i%20 == 19 {
 			runtime.GC()
